@@ -521,6 +521,9 @@ def inside(ctx):
         r = symarray('r', (3,), real=True)
         pos = np.dot(r, V) + o
         res = ev.call_fn(fn, [box, pos, inclusive], {}, Path({}))
+        if isinstance(res, sp.logic.boolalg.BooleanFunction):
+            # the same predicate written through complements (not (above or above ...)): negations pushed inwards, nothing else rewritten
+            res = sp.to_nnf(res, simplify=False)
         terms = list(res.args) if isinstance(res, sp.And) else [res]
         faces = {}
         badop = []
